@@ -180,6 +180,26 @@ func computeValidationFacts(p *load.Program, opsSlice []string) validationFacts 
 			}
 			return b.Succs[1]
 		}
+		// the test itself must be executed for every list / every condition: nothing but the loop's own header test may
+		// dominate it (a check nested under another condition protects only part of the inputs)
+		unconditional := true
+		for _, cd := range flow.DomConds(b) {
+			isHeader := false
+			for _, l := range flow.CountedLoops(val) {
+				if cd.At != nil && cd.At.Block() == l.Header {
+					isHeader = true
+				}
+			}
+			if arg, _, ok := flow.LenPred(cd.V, cd.Pol); ok && arg == ssa.Value(recv) {
+				isHeader = true // an emptiness guard on the list itself (early return for an empty list)
+			}
+			if !isHeader {
+				unconditional = false
+			}
+		}
+		if !unconditional {
+			continue
+		}
 		switch x := c.V.(type) {
 		case *ssa.BinOp:
 			// len(a) == 0
@@ -193,22 +213,7 @@ func computeValidationFacts(p *load.Program, opsSlice []string) validationFacts 
 					}
 				}
 			}
-			// condition.Argument > K
-			o := res.Of(x.X, nil, x)
-			if o.Kind == origin.KField && o.Field.Name() == "Argument" && strings.Contains(o.Args[0].String(), "param:"+recv.Name()) {
-				if k, ok := flow.ConstInt(x.Y); ok {
-					switch x.Op {
-					case token.GTR:
-						if appendsStringProblem(b, succ(true)) {
-							f.ArgBounded, f.ArgMax = true, k
-						}
-					case token.GEQ:
-						if appendsStringProblem(b, succ(true)) {
-							f.ArgBounded, f.ArgMax = true, k-1
-						}
-					}
-				}
-			}
+			_ = res
 		case *ssa.Call:
 			// isKnownOperation(condition.Operation)
 			cal := flow.Callee(x)
@@ -259,6 +264,10 @@ func computeValidationFacts(p *load.Program, opsSlice []string) validationFacts 
 			}
 		}
 	}
+	// the argument index: decided on the paths of one iteration of the validation loop.  For a sample of index values the
+	// feasible paths are those whose comparisons of the element's Argument with constants hold; an index is rejected when
+	// every feasible path records a problem, accepted when some feasible path records none.
+	f.ArgBounded, f.ArgMax = argumentBound(val, recv)
 	// enforcement in toSyscallsWithConditions: Conditions reach the result only when Validate() returned nothing
 	ts := p.Func(load.PkgRoot, "SyscallGroup.toSyscallsWithConditions")
 	if ts != nil {
@@ -710,4 +719,113 @@ func DumpE1(e *Env) {
 			fmt.Println()
 		}
 	}
+}
+
+
+// argumentBound: (every index above the largest accepted one is rejected, the largest accepted index).
+func argumentBound(val *ssa.Function, recv *ssa.Parameter) (bool, int64) {
+	var loop *flow.CountedLoop
+	for _, l := range flow.CountedLoops(val) {
+		if l.Over == ssa.Value(recv) {
+			loop = l
+		}
+	}
+	if loop == nil {
+		return false, -1
+	}
+	g := flow.G(val)
+	type path struct {
+		preds    []flow.IntPred
+		appended bool
+	}
+	var paths []path
+	isArg := func(v ssa.Value) bool {
+		f, ok := loop.ElementOf(flow.StripConv(v))
+		return ok && f == "Argument"
+	}
+	blockAppends := func(b *ssa.BasicBlock) bool {
+		for _, in := range b.Instrs {
+			if c, ok := in.(*ssa.Call); ok {
+				if a := isAppend(c); a != nil {
+					if st, ok := a.Type().Underlying().(*types.Slice); ok && types.Identical(st.Elem(), types.Typ[types.String]) {
+						return true
+					}
+				}
+			}
+		}
+		return false
+	}
+	var walk func(b *ssa.BasicBlock, cur path, seen map[*ssa.BasicBlock]bool)
+	walk = func(b *ssa.BasicBlock, cur path, seen map[*ssa.BasicBlock]bool) {
+		if len(paths) > 4096 {
+			return
+		}
+		if b == loop.Header {
+			paths = append(paths, path{append([]flow.IntPred{}, cur.preds...), cur.appended})
+			return
+		}
+		if seen[b] {
+			return
+		}
+		seen[b] = true
+		defer delete(seen, b)
+		if blockAppends(b) {
+			cur.appended = true
+		}
+		succs := g.Succs(b)
+		if len(succs) == 0 {
+			// leaves the function inside the loop (return): counts as a rejection only if it recorded a problem
+			paths = append(paths, path{append([]flow.IntPred{}, cur.preds...), cur.appended})
+			return
+		}
+		if ifi, ok := flow.LastIf(b); ok && len(succs) == 2 && succs[0] != succs[1] {
+			for k, pol := range []bool{true, false} {
+				nc := path{append([]flow.IntPred{}, cur.preds...), cur.appended}
+				if pr, ok := flow.AsIntPred(ifi.Cond, pol); ok && isArg(pr.X) {
+					nc.preds = append(nc.preds, pr)
+				}
+				walk(succs[k], nc, seen)
+			}
+			return
+		}
+		for _, sx := range succs {
+			walk(sx, cur, seen)
+		}
+	}
+	walk(loop.Body, path{}, map[*ssa.BasicBlock]bool{})
+	if len(paths) == 0 {
+		return false, -1
+	}
+	accepted := func(a int64) bool {
+		for _, p := range paths {
+			ok := true
+			for _, pr := range p.preds {
+				if !pr.Holds(a) {
+					ok = false
+				}
+			}
+			if ok && !p.appended {
+				return true
+			}
+		}
+		return false
+	}
+	max := int64(-1)
+	samples := []int64{}
+	for a := int64(0); a <= 64; a++ {
+		samples = append(samples, a)
+	}
+	samples = append(samples, 100, 255, 256, 1<<16, 1<<31-1, 1<<31, 1<<32-1)
+	for _, a := range samples {
+		if accepted(a) && a > max {
+			max = a
+		}
+	}
+	// contiguous from 0
+	for a := int64(0); a <= max && a <= 64; a++ {
+		if !accepted(a) {
+			return false, max
+		}
+	}
+	return max >= 0 && max <= 64, max
 }
